@@ -240,6 +240,10 @@ func (s *Sim) restart(ns *nodeState) {
 	s.trace("restart n%d image(files=%d unsynced=%d lost=%d)", ns.id, ns.image.files, ns.image.dirty, ns.image.lost)
 	s.fault("restart")
 	ns.restarts++
+	if ns.gotMsgSnap {
+		ns.restartedAfterMsgSnap = true
+		s.probe("restart-after-installing-msgsnap")
+	}
 	if ns.image.snapFiles > 0 {
 		ns.restartedSnap = true
 		s.probe("restart-from-image-with-snapshot")
@@ -362,7 +366,7 @@ func (s *Sim) fireScript() bool {
 	sf := (*ScriptedFault)(nil)
 	for i := range s.sc.Faults.Script {
 		f := &s.sc.Faults.Script[i]
-		if !f.fired && s.res.Acked >= f.AfterAcked {
+		if !f.fired && s.res.Acked >= f.AfterAcked && (!f.AfterMsgSnap || (f.Node >= 1 && f.Node <= len(s.nodes) && s.nodes[f.Node-1].gotMsgSnap)) {
 			sf = f
 			break
 		}
@@ -459,6 +463,17 @@ func (s *Sim) fireScript() bool {
 			s.heal()
 		}
 		return true
+	case "ticks":
+		// time passes (Hold raft ticks) while nothing is delivered and no client acts
+		if sf.Hold <= 1 {
+			sf.fired = true
+		}
+		sf.Hold--
+		d := s.nextTick()
+		s.journal(s.deathSig(), "script: tick +%v", d)
+		s.trace("script tick +%v", d)
+		time.Sleep(d)
+		return true
 	case "restart":
 		sf.fired = true
 		for _, ns := range s.nodes {
@@ -483,9 +498,7 @@ func (s *Sim) fireScript() bool {
 	return false
 }
 
-// rconfSpelling: mostly the lower-case spelling the connection handler executes
-// locally, now and then another letter case, which goes through the log and is
-// executed by every replica.
+// rconfSpelling: the connection handler recognises rconf in any letter case.
 func (s *Sim) rconfSpelling() string {
 	switch s.tape.Draw(5) {
 	case 3:
